@@ -268,6 +268,33 @@ impl<'tcx> Cx<'tcx> {
                     MirConst::Unevaluated(u, _) => {
                         out.push_str(",\"uneval\":");
                         esc(&self.path(u.def), &mut out);
+                        // a promoted constant such as `&SessionOrigin::User`: say which unit variant it is
+                        if let Some(p) = u.promoted {
+                            if self.tcx.is_mir_available(u.def) {
+                                let proms = self.tcx.promoted_mir(u.def);
+                                if let Some(pb) = proms.get(p) {
+                                    for bbd in pb.basic_blocks.iter() {
+                                        for st in bbd.statements.iter() {
+                                            if let StatementKind::Assign(bx) = &st.kind {
+                                                if let Rvalue::Aggregate(ak, ops) = &bx.1 {
+                                                    if let AggregateKind::Adt(adt_did, vidx, _, _, _) = **ak {
+                                                        if ops.is_empty() {
+                                                            let adt = self.tcx.adt_def(adt_did);
+                                                            let vname = adt.variant(vidx).name.to_string();
+                                                            out.push_str(",\"penum\":[");
+                                                            esc(&self.path(adt_did), &mut out);
+                                                            out.push(',');
+                                                            esc(&vname, &mut out);
+                                                            out.push(']');
+                                                        }
+                                                    }
+                                                }
+                                            }
+                                        }
+                                    }
+                                }
+                            }
+                        }
                     }
                     _ => {}
                 };
